@@ -126,6 +126,10 @@ HandlerMidFrame(scn) ==
 
 \* the request is one the transcoder must refuse before any dispatch (C18's list)
 Rejected(scn) == scn.cl.rej # ""
+\* ... except that with an unknown handler configured, "no such endpoint" means: hand it over, as it came.
+\* (unknownpath-handler: no method has that path; restonly-norule-handler: the method exists, the service speaks
+\*  REST only and the method has no HTTP rule, which the code finds out after it has worked on the headers)
+ToUnknown(rej) == rej \in {"unknownpath-handler", "restonly-norule-handler"}
 
 ClientAcceptable(scn) ==
     LET cp == ProtoOf(scn.cl.form) IN
@@ -215,7 +219,9 @@ C02(scn, obs) ==
       \cup (IF d.bad = <<>> THEN {} ELSE {"C02.HeadValid"})
       \cup (IF d.form = "grpc" => d.major = 2 THEN {} ELSE {"C02.GrpcHttp2"})
       \cup (IF d.form = "connect_get" => (d.http = "GET" /\ mi.nse) THEN {} ELSE {"C02.GetOnlyNse"})
-      \cup (IF d.form \in {"grpc", "grpcweb", "connect_stream", "connect_post"} => (d.http = "POST" /\ d.path = "rpc")
+      \cup (IF d.form \in {"grpc", "grpcweb", "connect_stream", "connect_post"} => (d.http = "POST" /\ d.path = "rpc"
+                  \* no query string; a client's own one survives only where the request is not re-targeted
+                  /\ (d.query = "none" \/ (d.query = "client" /\ d.form = scn.cl.form)))
             THEN {} ELSE {"C02.RequestLine"})
       \cup (IF d.form = "rest" => d.path = "rest" THEN {} ELSE {"C02.RestPath"})
       \cup (IF scn.hd.noread \/ d.rest = 0 THEN {} ELSE {"C02.DanglingEnvelope"})
@@ -230,7 +236,7 @@ C02(scn, obs) ==
 (***************************************************************************)
 \* positionally equal to what was sent, except where the sender's own frame was broken
 ReqFramesSound(scn, d) ==
-    /\ Len(d.frames) <= Len(scn.cl.frames) + (IF scn.cl.cut # "" \/ FrameFaulty(scn.cl.frames) THEN 1 ELSE 0)
+    /\ Len(d.frames) <= Len(scn.cl.frames) + (IF scn.cl.cut # "" \/ FrameFaulty(scn.cl.frames) \/ NoRequestMessage(scn) THEN 1 ELSE 0)
     /\ \A i \in DOMAIN d.frames :
          \/ i <= Len(scn.cl.frames) /\ d.frames[i].id = scn.cl.frames[i].m
          \/ d.frames[i].id < 0 /\ (ClientFaulty(scn))
@@ -391,7 +397,9 @@ C05(scn, obs) ==
     LET d == TheDisp(obs)
         c == obs.cl IN
       (IF d.lost = <<>> THEN {} ELSE {"C05.RequestHeaders"})
-      \cup (IF d.herr # 0 \/ scn.hd.end.how = "barehttp" THEN {} ELSE
+      \* (a bare HTTP failure has no metadata positions of its own, except from a Connect unary backend, whose
+      \*  headers and Trailer- headers are read whatever the body is)
+      \cup (IF d.herr # 0 \/ (scn.hd.end.how = "barehttp" /\ d.form # "connect_post") THEN {} ELSE
              (IF c.lost = <<>> THEN {} ELSE {"C05.ResponseHeaders"})
              \* (the property defines a trailer position for the four RPC client forms, none for REST)
              \cup (IF c.end.lost = <<>> \/ scn.cl.form = "rest" THEN {} ELSE {"C05.Trailers"})
@@ -401,20 +409,20 @@ C05(scn, obs) ==
 (* C13: pass-through and unknown-endpoint delegation.                      *)
 (***************************************************************************)
 C13(scn, obs) ==
-    IF ~(PassThru(scn) \/ scn.cl.rej = "unknownpath-handler") THEN {} ELSE
+    IF ~(PassThru(scn) \/ ToUnknown(scn.cl.rej)) THEN {} ELSE
       (IF obs.ret.n = 1 THEN {} ELSE {"C13.Delegated"})
       \cup (IF obs.ret.n >= 1 /\ ~TheDisp(obs).same THEN {"C13.RequestUntouched"} ELSE {})
       \cup (IF obs.ret.n >= 1 /\ ~scn.hd.noread /\ ~obs.cl.raw THEN {"C13.ResponseUntouched"} ELSE {})
       \cup (IF obs.ret.n >= 1 /\ (obs.cl.lost # <<>>) THEN {"C13.ResponseHeadersUntouched"} ELSE {})
-      \cup (IF obs.ret.n >= 1 /\ scn.cl.rej = "unknownpath-handler" /\ TheDisp(obs).kind # "unknown" THEN {"C13.UnknownHandler"} ELSE {})
+      \cup (IF obs.ret.n >= 1 /\ ToUnknown(scn.cl.rej) /\ TheDisp(obs).kind # "unknown" THEN {"C13.UnknownHandler"} ELSE {})
 
 (***************************************************************************)
 (* C18 / C11: dispatch discipline, release, totality.                      *)
 (***************************************************************************)
 C18(scn, obs) ==
       (IF obs.ret.n <= 1 THEN {} ELSE {"C18.AtMostOneDispatch"})
-      \cup (IF Rejected(scn) /\ scn.cl.rej # "unknownpath-handler" /\ obs.ret.n # 0 THEN {"C18.RejectedMeansNone"} ELSE {})
-      \cup (IF Rejected(scn) /\ scn.cl.rej # "unknownpath-handler" /\ obs.cl.status < 400 /\ Ok(obs)
+      \cup (IF Rejected(scn) /\ ~ToUnknown(scn.cl.rej) /\ obs.ret.n # 0 THEN {"C18.RejectedMeansNone"} ELSE {})
+      \cup (IF Rejected(scn) /\ ~ToUnknown(scn.cl.rej) /\ obs.cl.status < 400 /\ Ok(obs)
             THEN {"C18.RejectionVisible"} ELSE {})
       \cup (IF obs.ret.ctxdone THEN {} ELSE {"C18.ContextReleased"})
       \cup (IF obs.ret.late = 0 THEN {} ELSE {"C18.QuietAfterReturn"})
